@@ -138,7 +138,7 @@ let judge_arith (lhs : string list) (rhs : string list) (line : string) =
       match !prop with
       | "corr" -> corr_full k o
       | "C01" -> corr_full k o @ oracle_c01 k o
-      | "C02" -> corr_full k o @ oracle_c02_arith k o
+      | "C02" -> corr_full k o @ oracle_c02_arith k o @ oracle_c02_ext k o
       | "C07" -> corr_full k o @ oracle_c07 k o
       | "C19" -> corr_full k o @ (if opn = "Reduce" then oracle_ctx_reduce k o else [])
       | "C08" -> corr_full k o @ oracle_c08 k o
